@@ -8,6 +8,9 @@
 #include "fiber_cond.h"
 #include "fiber_semaphore.h"
 #include "fiber_barrier.h"
+#include "fiber_channel.h"
+#include <sys/socket.h>
+#include <unistd.h>
 
 static hcase_t* cur;
 static fiber_mutex_t mtx[2];
@@ -16,6 +19,17 @@ static fiber_semaphore_t sem;
 static volatile int flag;
 static volatile long cs_owner[2];
 static _Atomic int nfinished;
+/* one bounded channel + signal per fiber (a signal has a single waiter: only the owner receives) */
+static fiber_signal_t sigs[RT_MAX_THREADS];
+static fiber_bounded_channel_t* chans[RT_MAX_THREADS];
+static _Atomic int receiving[RT_MAX_THREADS];
+
+static void* closer_prog(void* param) {
+  fiber_yield();
+  close((int)(intptr_t)param);
+  return NULL;
+}
+
 
 static void* child_prog(void* param) {
   if (param) fiber_yield();
@@ -63,6 +77,32 @@ static void* fiber_prog(void* param) {
         r = (fiber_join(c, &res) == FIBER_SUCCESS && res == (void*)(intptr_t)a) ? 0 : 7;
         break;
       }
+      case 12: {  /* block in read() on a socket that another fiber then closes (fd wait woken with an error) */
+        int sv[2];
+        if (held[0] || held[1]) break;   /* the main fiber needs mutex 0 to keep everybody going */
+        if (socketpair(AF_UNIX, SOCK_STREAM, 0, sv) == 0) {
+          fiber_t* c = fiber_create(20000, &closer_prog, (void*)(intptr_t)sv[0]);
+          char b;
+          ssize_t n = read(sv[0], &b, 1);
+          (void)n;
+          fiber_join(c, NULL);
+          close(sv[1]);
+        }
+        break;
+      }
+      case 13: {  /* send a message to fiber a's channel (skipped when it looks full) */
+        int to = (int)(cur->ops[f][k][1] % cur->nthreads);
+        if (chans[to]->high - chans[to]->low < chans[to]->size) fiber_bounded_channel_send(chans[to], (void*)(intptr_t)(f + 1));
+        break;
+      }
+      case 14: {  /* receive one message on the own channel (the main fiber keeps feeding it) */
+        if (held[0] || held[1]) break;
+        atomic_store(&receiving[f], 1);
+        void* m = fiber_bounded_channel_receive(chans[f]);
+        atomic_store(&receiving[f], 0);
+        r = m ? 0 : 7;
+        break;
+      }
       case 11: {  /* create a detached child */
         fiber_t* c = fiber_create(20000, &child_prog, (void*)(intptr_t)a);
         fiber_detach(c);
@@ -83,10 +123,13 @@ static void main_fiber(void) {
   fiber_mutex_init(&mtx[0]); fiber_mutex_init(&mtx[1]);
   fiber_cond_init(&cond);
   fiber_semaphore_init(&sem, 0);
+  for (int f = 0; f < nf; f++) { fiber_signal_init(&sigs[f]); chans[f] = fiber_bounded_channel_create(2, &sigs[f]); receiving[f] = 0; }
   for (int f = 0; f < nf; f++) fs[f] = fiber_create(20000, &fiber_prog, (void*)(intptr_t)f);
   /* keep releasing condition waiters until every fiber has finished */
   while (atomic_load(&nfinished) < nf) {
     fiber_mutex_lock(&mtx[0]); flag = 1; fiber_cond_broadcast(&cond); fiber_mutex_unlock(&mtx[0]);
+    for (int f = 0; f < nf; f++)
+      if (atomic_load(&receiving[f]) && chans[f]->high == chans[f]->low) fiber_bounded_channel_send(chans[f], (void*)(intptr_t)99);
     fiber_yield();
   }
   for (int f = 0; f < nf; f++) {
